@@ -43,6 +43,7 @@ STALE_REPLAY = "SOLUTION 1\n temp 5\n" + gens.TAIL
 ISO_KEY = "isotope-initial-solution-total-is-major-isotope"
 ISO_REPLAY = "SOLUTION 1\n D 0\n" + gens.TAIL
 CONST_KEY = "add-constant-ignored"
+LKP_KEY = "lk-phase-double-counts-add-logk"
 QUICK_DBS = ["phreeqc.dat", "wateq4f.dat", "minteq.v4.dat", "minteq.dat"]
 PITZER_SIT = {"pitzer.dat", "sit.dat", "frezchem.dat", "ColdChem.dat", "Concrete_PZ.dat"}
 TOL_LOG = 1e-9
@@ -276,7 +277,8 @@ def parse_model(lines):
         elif w[0] in ("cb", "mus", "mu", "talk", "pH"):
             cur[w[0]] = unhexd(w[1])
         elif w[0] == "si":
-            cur["si"][w[1]] = (w[2], w[3] if len(w) > 3 else "") if w[2] in ("missing", "unknown-phase") else (unhexd(w[2]), unhexd(w[3]))
+            cur["si"][w[1]] = (w[2], w[3] if len(w) > 3 else "") if w[2] in ("missing", "unknown-phase") else \
+                (unhexd(w[2]), unhexd(w[3]), unhexd(w[4]) if len(w) > 4 else unhexd(w[3]))
         elif w[0] == "gate":
             cur["gate"] = (w[1] == "1", w[2] == "1")
         elif w[0] == "bad-line":
@@ -293,7 +295,7 @@ def close(a, b, rel, floor=0.0):
     return abs(a - b) <= rel * max(abs(a), abs(b)) + floor
 
 
-def judge(d, mc, stats, mb={}):
+def judge(d, mc, stats, mb={}, phase_adds=frozenset(), e_species=None):
     """returns (oracle_failures, tie_failures); each a list of (kind, name, detail)"""
     orc, tie = [], []
     W = d["W"]
@@ -315,6 +317,7 @@ def judge(d, mc, stats, mb={}):
         stats["stale_states"] += 1
     found = []
     iso_found = []
+    lkp_found = []
     if mc.get("bad"):
         tie.append(("driver", "bad-line", mc["bad"][:2]))
     for m in d["m"]:
@@ -408,8 +411,10 @@ def judge(d, mc, stats, mb={}):
                 if not stale:
                     stats["res_max"] = max(stats["res_max"], abs(res))
                 if not abs(res) <= TOL_LOG:
-                    if alt_pe:
+                    if alt_pe and (e_species is None or n in e_species):
+                        # a non-master species written with e- while a non-default couple supplies the electron activity
                         stats["res_altpe_skipped"] += 1
+                        stats["altpe_names"].add(f"{n}:{res:.3g}")
                     elif excused:
                         found.append(("mass-action", n, f"database mass-action residual {res!r} log units; stored lm {s['lm']!r}, molalities() on the accepted state gives {fresh.get(n)!r} (iterations={d['iterations']}, basis switched={switched})"))
                     else:
@@ -511,7 +516,7 @@ def judge(d, mc, stats, mb={}):
         if ms is None or rp is None or isinstance(ms[0], str):
             stats["si_skipped"] += 1
             continue
-        si_m, lk_m = ms
+        si_m, lk_m, lk_twice = ms
         si, iap, sr = rp
         ncoef = sum(abs(c) for _, c in p["rx"][1:]) + 1
         if abs(si - (iap - p["lk"])) > 1e-12 * (1 + abs(iap) + abs(p["lk"])):
@@ -525,7 +530,11 @@ def judge(d, mc, stats, mb={}):
                 orc.append(("SI", n, f"SI engine {si!r}, from database reaction and reported activities {si_m!r}"))
             rkp = d["rkp"].get(n)
             if rkp is not None and abs(rkp - lk_m) > TOL_LOG:
-                orc.append(("lk-phase", n, f"LK_PHASE {rkp!r}, database text {lk_m!r}"))
+                if abs(rkp - lk_twice) <= TOL_LOG and n in phase_adds:
+                    lkp_found.append(("lk-phase", n, f"LK_PHASE {rkp!r} counts the -add_logk expressions of the phase twice; log K(T) of "
+                                                     f"the database text (and of SI) is {lk_m!r}"))
+                else:
+                    orc.append(("lk-phase", n, f"LK_PHASE {rkp!r}, database text {lk_m!r}"))
         stats["si"] += 1
     # (f) gate
     conv_code = d.get("verdict") == 2
@@ -543,6 +552,9 @@ def judge(d, mc, stats, mb={}):
     if iso_found:
         stats["isotope_initial_totals"] += 1
         d["iso_finding"] = iso_found
+    if lkp_found:
+        stats["lk_phase_double_count"] += 1
+        d["lkp_finding"] = lkp_found
     return orc, tie
 
 
@@ -580,7 +592,7 @@ def new_stats():
                            "above_1atm", "rewritten_valence_masters", "rewritten_relative_to_switched_basis",
                            "states_with_redox_couple", "stale_states", "stale_states_excused", "couples", "isotope_initial_totals",
                            "oracle_failures", "valence_totals", "valence_totals_skipped_mole_balance", "lk_named",
-                           "add_constant_ignored_states")} | {"res_max": 0.0, "seen": set()}
+                           "add_constant_ignored_states", "lk_phase_double_count")} | {"res_max": 0.0, "seen": set(), "altpe_names": set()}
 
 
 def resolve_named(db):
@@ -755,6 +767,8 @@ def check_runs(ctx, exe, dbname, db, dblines, texts, stats):
     mlines = list(dblines)
     mb = {n: set(sp.elements) for n, sp in db.species.items() if sp.mole_balance}
     has_const = any(nm == "XconstantX" for o in list(db.species.values()) + list(db.phases.values()) for nm, _ in o.add_logk)
+    phase_adds = frozenset(n for n, ph in db.phases.items() if ph.add_logk)
+    e_species = frozenset(n for n, sp in db.species.items() if any(t == "e-" for t, _ in sp.rxn))
     redo = []
     index = []
     for i, run in enumerate(runs):
@@ -784,8 +798,10 @@ def check_runs(ctx, exe, dbname, db, dblines, texts, stats):
         if mc is None or "gate" not in mc:
             findings.append((i, d["idx"], [], [("driver", "no-output", cid)], [], []))
             continue
-        orc, tie = judge(d, mc, stats, mb)
+        orc, tie = judge(d, mc, stats, mb, phase_adds, e_species)
         extra = []
+        if d.get("lkp_finding"):
+            extra.append((LKP_KEY, "LK_PHASE (calc_logk_p) adds the -add_logk expressions of a phase a second time", d["lkp_finding"]))
         if d.get("iso_finding"):
             extra.append((ISO_KEY, "ISOTOPES database: add_isotopes() replaces total H / total O by the major-isotope moles before "
                           "the initial solution is punched", d["iso_finding"]))
@@ -802,7 +818,7 @@ def check_runs(ctx, exe, dbname, db, dblines, texts, stats):
         cases_b = parse_model(pmodel(ctx, "\n".join(lines_b) + "\n"))
         for i, d, cid, orc, tie, extra in redo:
             mcb = cases_b.get(cid)
-            ob, tb = judge(d, mcb, new_stats(), mb) if mcb and "gate" in mcb else (orc, tie)
+            ob, tb = judge(d, mcb, new_stats(), mb, phase_adds, e_species) if mcb and "gate" in mcb else (orc, tie)
             if not ob and not tb:
                 stats["add_constant_ignored_states"] += 1
                 extra.append((CONST_KEY, "-add_constant is ignored: the engine's log K are those of the database text without the "
@@ -846,7 +862,7 @@ def run_db(ctx, exe, dbname, nruns, seed_rng, stats, cov, sweep=False, focus=Non
             k, tx, st = futs[fu]
             findings, runs = fu.result()
             for key, v in st.items():
-                if key == "seen":
+                if key in ("seen", "altpe_names"):
                     stats[key] |= v
                 else:
                     stats[key] = max(stats[key], v) if key == "res_max" else stats[key] + v
@@ -965,7 +981,7 @@ def _run(ctx, ok, exe):
     cov = {k: {} for k in ("kinds", "features", "n_elements", "temp_bins", "ph_bins", "units", "log_molal_bins")}
     dbs, excluded = databases(ctx)
     thorough = ctx.tier == "thorough" or not ok
-    nruns = 4000 if thorough else 800
+    nruns = 4000 if thorough else 500
     # 1. k_calc directly
     bad, nk = kcalc_direct(ctx, exe, 2000 if thorough else 300)
     if bad:
@@ -1027,7 +1043,7 @@ def _run(ctx, ok, exe):
         before = dict(stats)
         stats["seen"] = set()
         focus = smeta["species"]
-        db, dblines, results = run_db(ctx, exe, str(path), 300 if thorough else 120, ctx.rng, stats, cov, sweep=False,
+        db, dblines, results = run_db(ctx, exe, str(path), 300 if thorough else 100, ctx.rng, stats, cov, sweep=False,
                                       focus=[x for x in ("Na", "K", "Li", "Ca", "Mg", "Ba", "Sr", "Mn", "Zn", "Cd", "Cu", "Al",
                                                          "Cl", "Br", "F", "N", "S") if x])
         a, b = handle_findings(ctx, exe, str(path), db, dblines, results, db_text=text)
@@ -1049,6 +1065,7 @@ def _run(ctx, ok, exe):
     ctx.cov["databases"] = per_db
     ctx.cov["databases_excluded"] = excluded
     stats.pop("seen", None)
+    stats["altpe_names"] = sorted(stats["altpe_names"])[:40]
     ctx.cov["counters"] = stats
     ctx.cov["kcalc_direct_calls"] = nk
     ctx.cov["database_items_compared_with_engine"] = ndb_items
@@ -1107,4 +1124,5 @@ def _replay(ctx, data, exe):
     ctx.cov["evaluations"] = stats["res"] + stats["rx"]
     ctx.cov["distinct_nontrivial"] = stats["res"]
     stats.pop("seen", None)
+    stats["altpe_names"] = sorted(stats["altpe_names"])[:40]
     ctx.cov["counters"] = stats
